@@ -84,6 +84,11 @@ Alphabet ==
            Ph("def", <<Wd(":"), Wd("f")>>), Ph("enddef", <<Wd(";")>>), Ph("call", <<Wd("f")>>),
            Ph("beginU", <<Wd("begin")>>), Ph("until", <<Wd("until")>>),
            Ph("local", <<Wd("local"), Wd("x")>>), Ph("lref", <<Wd("x")>>) >>
+    [] Frag = "locloop" ->      \* locals re-initialised inside loops, in called definitions (the reverse log must keep the overwritten value)
+        << Ph("def", <<Wd(":"), Wd("f")>>), Ph("enddef", <<Wd(";")>>), Ph("call", <<Wd("f")>>),
+           Ph("do", <<L(2), L(0), Wd("do")>>), Ph("loop", <<Wd("loop")>>),
+           Ph("local", <<Wd("I"), Wd("local"), Wd("x")>>), Ph("local", <<L(7), Wd("local"), Wd("x")>>), Ph("local", <<L(8), Wd("local"), Wd("y")>>),
+           Ph("lref", <<Wd("x")>>), Ph("lref", <<Wd("y")>>), Plain(<<Wd("drop")>>) >>
     [] Frag = "metalim" ->      \* growth inside meta blocks (the hidden outer stack counts towards the stack limit)
         << Plain(<<L(1)>>), Plain(<<Wd("dup")>>), Plain(<<Wd("drop")>>), Plain(<<Wd("+")>>),
            Ph("meta", <<Wd("#(")>>), Ph("endmeta", <<Wd("#)")>>), Ph("vec", <<Wd("[")>>), Ph("endvec", <<Wd("]")>>) >>
